@@ -6,9 +6,11 @@ from .. import docgen as D, kdoc as K, pitch as M, spine as S
 from ..common import Bad, Result, Problem
 
 ID = 'C15'
+SHARDS_QUICK = 4
 RULE = ('Hypothesis documents x one of the 40 interval names x up/down (both drawn per case, every case re-imports the '
         'source).  Claimed core (profile transpose-core): single notes without explicit accidental, rests, barlines, '
-        'interpretations, comments, splits/joins, non-kern spines (**text, **dynam, **dyn, **harm, **mxhm, **fing).  '
+        'interpretations, comments, splits/joins, non-kern spines (**text, **dynam, **dyn, **harm, **mxhm, **fing), and '
+        'documents without any **kern spine (profile no-kern: nothing may change, nothing may raise).  '
         'Explored profiles tracked as findings: "accidentals" (notes with #, -, ##, --) and "chords".  Oracle: the '
         'eKern export of doc.to_transposed(interval, direction) must equal the source eKern export cell for cell except '
         'that the pitch part of every note is the kv/pitch.py (C09) transposition of the source pitch; decorations, '
@@ -24,6 +26,8 @@ PROFILES = {
     'core': dict(types=TYPES, acc=False, chords=False),
     'accidentals': dict(types=TYPES, acc='plain', chords=False),
     'chords': dict(types=TYPES, acc=False, chords=True, rest_in_chord=False),
+    # documents without any **kern spine hold no pitch: every interval must return an identical document
+    'no-kern': dict(types=TYPES[1:], acc=False, chords=False, force_kern=False),
 }
 
 
@@ -200,10 +204,11 @@ def run(ctx):
     if ctx.shard == 0:
         ctx.check_all([{'doc': D.long_document(1100 + 37 * (ctx.seed % 11), ctx.seed), 'interval': 'M2', 'dir': 'up', 'prof': 'long'},
                        {'doc': D.long_document(1250, ctx.seed + 1, with_text=False), 'interval': 'P5', 'dir': 'down', 'prof': 'long'}], check)
-    n = 250 if ctx.quick else 2500
+    n = 80 if ctx.quick else 2500
     ctx.run_hypothesis(cases('core'), check, max_examples=n, label='core')
-    ctx.run_hypothesis(cases('accidentals'), check, max_examples=max(40, n // 5), salt=1, label='accidentals')
-    ctx.run_hypothesis(cases('chords'), check, max_examples=max(40, n // 5), salt=2, label='chords')
+    ctx.run_hypothesis(cases('accidentals'), check, max_examples=max(20, n // 5), salt=1, label='accidentals')
+    ctx.run_hypothesis(cases('chords'), check, max_examples=max(20, n // 5), salt=2, label='chords')
+    ctx.run_hypothesis(cases('no-kern'), check, max_examples=max(12, n // 20), salt=3, label='no-kern')
 
 
 def replay(case):
